@@ -62,6 +62,23 @@ Definition sp_growth_ok (k : cfg) (lim : option N) (prev_size new_size req_size 
   | None => (2 * (prev_size - k_footer k) <=? new_size - k_footer k) && (req_size <=? new_size - k_footer k)
   end.
 
+(* ---- C18, whole history: while every chunk was obtained at the first attempt with no limit in
+   force, the blocks held (sizes, newest first) form a doubling chain: each usable size at least
+   twice the one before, none below the default, so their number is logarithmic in the newest and
+   their sum is at most twice the newest ---- *)
+Fixpoint sp_doubling (k : cfg) (sizes : list N) : bool :=
+  match sizes with
+  | s2 :: r => (match r with s1 :: _ => 2 * (s1 - k_footer k) <=? s2 - k_footer k | [] => true end) && sp_doubling k r
+  | [] => true
+  end.
+Definition sp_chain_ok (k : cfg) (sizes : list N) : bool :=
+  sp_doubling k sizes && forallb (fun s => k_default k <=? s - k_footer k) sizes &&
+  match sizes with
+  | [] => true
+  | s :: r => (k_default k * 2 ^ N.of_nat (length r) <=? s - k_footer k) &&
+              (sumN (map (fun x => x - k_footer k) sizes) <=? 2 * (s - k_footer k))
+  end.
+
 (* ---- C10, byte-exact clause: in a history of uniform allocations the slices hold
    exactly the bytes that were allocated since the last reset ---- *)
 Definition sp_iter_exact (slices : list (N * N)) (allocated : N) : bool :=
